@@ -98,8 +98,6 @@ Proof. intros S fuel fr. apply units_fail_like_reference. intros H. discriminate
 
 (** No field of the schema is run as a batch (every other mode - plain, Expensive, the fallback of a
     batch field, NumParallelInvocations - is allowed). *)
-Definition no_batch_fields (S : schema) : bool :=
-  forallb (fun o => forallb (fun f => negb (should_use_batch f)) (o_fields o)) (s_objects S).
 
 Lemma find_object_in : forall n l o, find_object n l = Some o -> In o l.
 Proof.
